@@ -409,6 +409,18 @@ def gen(repo):
            "(* accesses whose shard guard is alive across an await point, and non-blocking lookups (the try_ family), which can miss a",
            "   present entry while its shard is locked *)",
            "Definition guard_across_await : list string := [" + ";\n  ".join(q(b) for b in bad) + "].", ""]
+    # exclusive registration: the test "nobody holds the name" is made on the guard DashMap::entry returns (one critical
+    # section with the insertion), not by a lookup of its own before it
+    with open(os.path.join(repo, "crates/server/src/c2s/router.rs"), encoding="utf-8") as f:
+        rsrc = blank(f.read())
+    rf = [x for x in functions(rsrc) if x[0] == "register_connection"]
+    if not rf:
+        raise Shape("lock lint: register_connection not found in c2s/router.rs")
+    rbody = rsrc[rf[0][1]:rf[0][2]]
+    ent = re.search(r"\.\s*entry\s*\(", rbody)
+    tst = re.search(r"\bif\s+[^{]*\bexclusive\b", rbody)
+    pre = re.search(r"(has_connection|contains_key|\.\s*get\s*)\s*\(", rbody[:ent.start()] if ent else rbody)
+    excl_ok = bool(ent) and bool(tst) and ent.start() < tst.start() and pre is None
     with open(os.path.join(repo, CHAN_FILE), encoding="utf-8") as f:
         csites, nested, writers = analyse_chan_locks(CHAN_FILE, f.read())
     if len(csites) < 8:
@@ -417,7 +429,9 @@ def gen(repo):
             "Definition chan_lock_sites : N := %d%%N." % len(csites), "",
             "(* channel locks still held when another channel lock is taken (directly or through a call), and write-lockers of the",
             "   manager-wide lock *)",
-            "Definition chan_lock_nested : list string := [" + ";\n  ".join(q(b) for b in nested + writers) + "].", ""]
+            "Definition chan_lock_nested : list string := [" + ";\n  ".join(q(b) for b in nested + writers) + "].", "",
+            "(* Router::register_connection decides exclusivity on the entry guard it inserts through (one critical section) *)",
+            "Definition exclusive_check_under_entry_guard : bool := %s." % ("true" if excl_ok else "false"), ""]
     return "\n".join(out)
 
 
